@@ -90,5 +90,10 @@ def site(meta):
     sel = sorted(set(p for p in pfx if p in (0x66, 0x67, 0xf2, 0xf3)))     # only these change what the opcode means
     if sel:
         s += ' pfx=' + '.'.join('%02x' % p for p in sel)
+        # a further prefix next to a meaning-changing one is a different decoding path (exact prefix-list tests)
+        if any(p in (0x26, 0x2e, 0x36, 0x3e, 0x64, 0x65) for p in pfx):
+            s += '+seg'
+        if 0xf0 in pfx:
+            s += '+lock'
     s += ' mod=%s' % ('reg' if modrm >= 0xc0 else 'mem')
     return s
